@@ -184,6 +184,9 @@ Section Tab10.
     :: same (filter (fun v => negb (is_cross v)) cli_impl) (filter (fun v => negb (is_cross v)) api_all)
     :: same (filter (keep fn) (m_cli ideal fs files ds)) (filter (keep_spec fn) (flat_map (m_api ideal fs) ts))
     :: map (fun c => same cli_impl (filter (keep fn) (m_cli c fs files ds)) && all_same api_impl (map (m_api c fs) ts))
+           (candidates10 q)
+    (* and, for attribution: under which candidate the MODEL's two routes agree on this case *)
+    ++ map (fun c => same (filter (keep fn) (m_cli c fs files ds)) (filter (keep_spec fn) (flat_map (m_api c fs) ts)))
            (candidates10 q).
 
   (* the report queries of a case *)
